@@ -11,6 +11,8 @@ import (
 	"sync/atomic"
 	"testing"
 	"time"
+
+	"github.com/rs/zerolog"
 )
 
 // propRunners maps a property id to the body of one simulated run.
@@ -36,6 +38,11 @@ func runOne(t *testing.T, prop, tier string, seed uint64, ch *Choice, params map
 	if !haveBubble {
 		rc.Stats.Inc("runs_hosted_by_build_with_repository_toolchain", 1)
 	}
+	// The log level is a configuration knob of a deployment like any other (what is written goes nowhere here): services
+	// created in this run log at the drawn level.  Decision 0 = logging off.
+	lvl := []zerolog.Level{zerolog.Disabled, zerolog.Disabled, zerolog.Disabled, zerolog.TraceLevel, zerolog.DebugLevel, zerolog.InfoLevel, zerolog.WarnLevel, zerolog.ErrorLevel}[ch.Pick(8, 0)]
+	zerolog.SetGlobalLevel(lvl)
+	rc.Stats.Inc("runs_with_log_level_"+lvl.String(), 1)
 	// util.Scatter sizes its worker pool from GOMAXPROCS, so the process-wide setting is an input of the
 	// run: it is pinned here and drawn from the choice source by the runners that vary it.
 	prevProcs := runtime.GOMAXPROCS(4)
